@@ -107,12 +107,15 @@ def run_one(pid, k, m):
         if r.returncode:
             return dict(m, status="does_not_compile")
         env = dict(os.environ, PYTHONPATH=d)
-        r = subprocess.run(["/venv/bin/python", "-m", "pytest", "-q", "-x", "-p", "no:cacheprovider"], cwd=d, env=env, capture_output=True, text=True, timeout=600)
+        try:
+            r = subprocess.run(["/venv/bin/python", "-m", "pytest", "-q", "-x", "-p", "no:cacheprovider"], cwd=d, env=env, capture_output=True, text=True, timeout=90)
+        except subprocess.TimeoutExpired:
+            return dict(m, status="tests_kill", clause="(tests hang)")
         if r.returncode:
             return dict(m, status="tests_kill")
         env = dict(os.environ, VERIF_REPO=d, VERIF_OUT=os.path.join(d, "out"), VERIF_EVIDENCE_DIR=os.path.join(d, "ev"))
         try:
-            r = subprocess.run(["/verif/check", pid, "--tier", "quick"], cwd="/verif", env=env, capture_output=True, text=True, timeout=1500)
+            r = subprocess.run(["/verif/check", pid, "--tier", "quick"], cwd="/verif", env=env, capture_output=True, text=True, timeout=int(os.environ.get("MUT_CHECK_TIMEOUT", "420")))
         except subprocess.TimeoutExpired:
             return dict(m, status="check_kill", clause="(check timed out)")
         out = r.stdout + r.stderr
